@@ -472,6 +472,21 @@ fn base_messages(rng: &mut Rng, tier: Tier, obs: &mut Obs) -> Vec<Vec<u8>> {
             out.push(spec_encode(&m));
             continue;
         }
+        if rng.chance(1, 160) {
+            // a bare AVP list of 2^16 records and more (behind a 12-octet
+            // header so that it also arrives as the tail of a short message)
+            let n = *rng.pick(&[65_535usize, 65_536, 65_537, 70_000]);
+            let mut b = vec![0x13, 0x20, 0, 20, 0, 1, 0, 2, 0, 0, 0, 0];
+            b.extend_from_slice(&crate::records::raw_record(AVP_M, 0, 0, &[0, 6]));
+            let six = crate::records::raw_record(AVP_M, 0, 39, &[]);
+            let eight = crate::records::raw_record(AVP_M, 0, 10, &[0, 4]);
+            for i in 0..n {
+                b.extend_from_slice(if i % 7 == 3 { &eight } else { &six });
+            }
+            obs.count("probe:avp-list-of-2^16-records-or-more");
+            out.push(b);
+            continue;
+        }
         match rng.below(10) {
             0..=5 => {
                 let limit = if tier == Tier::Thorough && rng.chance(1, 40) {
@@ -710,6 +725,27 @@ fn run_common<S: Scenario<Case = Case>>(rng: &mut Rng, ctx: &mut Ctx) {
                 json!({"base_message_hex": to_hex(&b2[..b2.len().min(200)]), "octets": b2.len(),
                        "delivered": "every truncation, every header bit flip, every length field at guard+-1, fault pairs; each to 8 option sets, try_read and try_read_greedy"})
             });
+        }
+        if base.len() > 300_000 {
+            // a list of 2^16 records or more: the list decoder only, whole,
+            // cut inside its last record, and with one record's length raised
+            let body = base[12..].to_vec();
+            let mut cut = body.clone();
+            cut.truncate(body.len() - 3);
+            let mut bumped = body.clone();
+            let at = body.len() - 6;
+            bumped[at + 1] = 9;
+            for (k, b) in [("none", body), ("truncate", cut), ("set-avp-length", bumped)] {
+                ctx.obs.count(&format!("fault:{k}"));
+                for reader in [ReaderCfg::Real, ReaderCfg::Slice] {
+                    ctx.check::<S>(&Case {
+                        bytes: b.clone(),
+                        entry: Entry::Greedy,
+                        reader,
+                    });
+                }
+            }
+            continue;
         }
         // the unfaulted delivery first (fault-free configuration)
         deliver_all::<S>(ctx, &mut fr, base.clone(), "none", true);
